@@ -48,12 +48,30 @@ def wb_cases(tier):
                 if path == 'dict' and v[0] == 't' and v[1].startswith('='):
                     continue        # in the dictionary format a string starting with '=' IS a formula
                 yield ['wb', wb, 'S', [kind, v], path]
+    for name in extra_models():
+        for path in ('file', 'dict'):
+            yield ['wb', ['extra', name], 'S', None, path]
     # whole-column form through the file path (clipped by the loader; exported as a whole column)
     yield ['wb', ['family', [[0, 1]], [['col', 'cell']]], 'S', None, 'file']
 
 
+def extra_models():
+    K, cell, rng, op, fn, num, const = M.K, M.cell, M.rng, M.op, M.fn, M.num, M.const
+    B = M.B
+    return {
+        # a name that no longer exists, used by a cell AND by another defined name; a name for a name; a name for a constant
+        'undef-name': {'cells': {K('S', 'A1'): const(('n', 2.0)), K('S', 'B2'): op('+', ['name', B, 'OLD_RATE'], num(1)), K('S', 'B3'): op('*', ['name', B, 'ALIAS'], num(2)),
+                                 K('S', 'B4'): fn('IFERROR', cell('S', 'B2'), num(7)), K('S', 'B5'): op('+', ['name', B, 'SECOND'], cell('S', 'A1')),
+                                 K('S', 'B6'): op('*', ['name', B, 'KONST'], num(3))},
+                       'arrays': {}, 'names': {'%s|ALIAS' % B: ['name', B, 'OLD_RATE'], '%s|FIRST' % B: cell('S', 'A1'), '%s|SECOND' % B: ['name', B, 'FIRST'], '%s|KONST' % B: num(4)},
+                       'sheets': [[B, 'S']]},
+    }
+
+
 def spec_of(case):
     _, wb, sn, const, path = case
+    if wb[0] == 'extra':
+        return extra_models()[wb[1]]
     spec = M.MODELS[wb[1]]() if wb[0] == 'model' else F.build(wb[1], wb[2])
     if const is not None:
         k0 = [k for k, c in spec['cells'].items() if c[0] == 'const'][0]
@@ -134,7 +152,10 @@ def tree_cases(tier):
                 for alt in ALT_LEAVES[1:]:
                     yield ['tree', replace_leaf(t, i, alt)]
     for f in ['SUM(1,,2)', 'IF(TRUE,{1,2;3,4},"a,b")', 'SUM((B1,C1))', 'SUM(B1:C2 C1:D2)', 'B1:C2', '-{1,-2}', '"q""r"&"x"', "'My Sheet'!A1+'[b.xlsx]It''s'!B2",
-              'SUM(B:B)', 'SUM(2:3)', 'RATE_X*2', '#REF!+1', 'IFERROR(#N/A,"")', '1E+20+1E-5', '0.1+0.2']:
+              'SUM(B:B)', 'SUM(2:3)', 'RATE_X*2', '#REF!+1', 'IFERROR(#N/A,"")', '1E+20+1E-5', '0.1+0.2',
+              # full-extent and boundary references in lower / mixed case and with $ (the export is upper case: it must name the same thing)
+              'SUM(a1:xfd1)', 'COUNTA(a1:XFD2)', 'a1:XFD2 B:B', 'SUM(a:a)', 'SUM(a1:a1048576)', 'SUM($a$1:$xfd$1048576)', 'SUM(xfd1:xfd3)', 'SUM(A1:xfd1048576)',
+              'SUM(1:1)', 'SUM(a1:b2 b2:c3)', "SUM('my sheet'!a1:xfd1)", 'SUM(r1c1:r1c16384)', 'SUM(R1C1:R1048576C1)', 'true+false', 'sum(b1,c1)*Pi()']:
         yield ['text', f]
     # constant formulas whose value is compared too: literals beyond 15 significant digits and at the ends of the double range
     for f in ['0.30000000000000004', '(0.1+0.2)=0.30000000000000004', 'MOD(9007199254740993,10)', '12345678901234567-12345678901234560', '3.14159265358979312',
